@@ -218,7 +218,7 @@ func c15Run(c *ev.Ctx, seq []c15step, si int, faultAt int, ferr error, kind stri
 func runC15(c *ev.Ctx) {
 	r := c.Rand("c15")
 	seqs := c15Fixed()
-	for i := 0; i < c.Sz(40, 1500); i++ {
+	for i := 0; i < c.Sz(40, 8000); i++ {
 		seqs = append(seqs, c15Random(r.Fork(uint64(i))))
 	}
 	errs := c15Errors()
